@@ -103,16 +103,16 @@ const (
 )
 
 type Scenario struct {
-	Procs      []ProcSpec `json:"procs"`
-	Ordered    bool       `json:"ordered,omitempty"`
-	Strict     bool       `json:"strict,omitempty"`
-	LogLength  int        `json:"log_length,omitempty"`
-	ToRun      []string   `json:"to_run,omitempty"`
-	NoDeps     bool       `json:"no_deps,omitempty"`
+	Procs     []ProcSpec `json:"procs"`
+	Ordered   bool       `json:"ordered,omitempty"`
+	Strict    bool       `json:"strict,omitempty"`
+	LogLength int        `json:"log_length,omitempty"`
+	ToRun     []string   `json:"to_run,omitempty"`
+	NoDeps    bool       `json:"no_deps,omitempty"`
 	// PreHolds are armed before Run() starts.
-	PreHolds   []Step     `json:"pre_holds,omitempty"`
-	Steps      []Step     `json:"steps"`
-	TimeUnitMs int        `json:"time_unit_ms,omitempty"`
+	PreHolds   []Step `json:"pre_holds,omitempty"`
+	Steps      []Step `json:"steps"`
+	TimeUnitMs int    `json:"time_unit_ms,omitempty"`
 	// FinishCode is the exit code used for commands still alive in the end game.
 	FinishCodes []int  `json:"finish_codes,omitempty"`
 	NoFinish    bool   `json:"no_finish,omitempty"`
